@@ -1239,8 +1239,16 @@ def _msgs(rng, thorough):
     return [bytes(rng.randrange(256) for _ in range(l)) for l in lens]
 
 
+DST_BOUNDARY = (0, 1, 16, 31, 32, 33, 43, 63, 64, 65, 127, 128, 129, 253, 254, 255)
+
+
 def _dsts(rng):
-    return [bytes(rng.randrange(256) for _ in range(l)) for l in (0, 1, 16, 43, 253, 254, 255)]
+    return [bytes(rng.randrange(256) for _ in range(l)) for l in DST_BOUNDARY]
+
+
+def _dsts_all(rng):
+    """one tag of every admissible length 0..255 (a length-dependent fast path can sit at any of them)"""
+    return [bytes(rng.randrange(256) for _ in range(l)) for l in range(256)]
 
 
 def check_C13(ck):
@@ -1260,7 +1268,7 @@ def check_C13(ck):
         b = 32 if x == "xmd256" else 64
         lens = [0, 1, 31, 32, 33, 64, 65, 127, 128, 129, 255 * b - 1, 255 * b] if x.startswith("xmd") else [0, 1, 32, 136, 137, 168, 169, 500, 8160, 65535]
         ex = O.expander(x)
-        for d in dsts:                                  # every tag-length class with every expander
+        for d in _dsts_all(rng):                        # every tag length 0..255 with every expander
             m = rng.choice(msgs)
             l = rng.choice([32, 64, 96, 128])
             cases.append(("expand/%s/dstlen%d" % (x, len(d)), "expand %s %s %s %x" % (x, hx(m), hx(d), l))); exp.append(hx(ex(m, d, l)))
@@ -1386,7 +1394,10 @@ def check_C06(ck):
             for mode in ("ro", "nu"):
                 picks = [(rng.choice(msgs), rng.choice(dsts)) for _ in range(2 if not thorough else 8)] + [(msgs[0], dsts[0])]
                 if mode == "ro" or thorough:
-                    picks += [(rng.choice(msgs), d) for d in dsts]      # every tag-length class (0..255) per suite
+                    picks += [(rng.choice(msgs), d) for d in dsts]      # boundary tag lengths per suite
+                    # every tag length 0..255: all of them per suite in the thorough tier, a rotating quarter per suite otherwise
+                    xi = ("xmd256", "xmd512", "xof128", "xof256").index(x)
+                    picks += [(rng.choice(msgs[:8]), d) for d in _dsts_all(rng) if thorough or len(d) % 4 == xi]
                 if x == "xmd256":
                     picks += [(m, dsts[3]) for m in msgs[:: (3 if not thorough else 1)]]
                 for (m, d) in picks:
